@@ -48,6 +48,101 @@ def close(a, b):
     return bool(torch.all((a - b).abs() <= 1e-9 + 1e-7 * b.abs().max()))
 
 
+def fnkinds(ctx):
+    """what counts as a function and which object parameters it exposes (FnKinds.tla), row by row"""
+    import os
+    import xitorch
+    from xitorch import EditableModule, get_pure_function, make_sibling
+    import xitorch.optimize
+    t, cf = tlcmod.gen_mc(ctx.work, "FnKinds", "MC_FnKinds", {}, invariants=["FunctionsHaveNoObjectParams"])
+    dot = os.path.join(ctx.work, "fk.dot")
+    ctx.model_check(t, cf, workers=2, dump_dot=dot, label="function kinds", timeout=120)
+    nodes, _, _ = tlcmod.parse_dot(dot)
+    os.remove(dot)
+
+    class E(EditableModule):
+        def __init__(self):
+            self.a = torch.tensor([1.0, 2.0], dtype=torch.float64)
+            self.b = torch.tensor([0.5, 0.1], dtype=torch.float64)
+
+        def f(self, y):
+            return y - self.a * self.b
+
+        def __call__(self, y):
+            return self.f(y)
+
+        def getparamnames(self, methodname, prefix=""):
+            if methodname in ("f", "__call__"):
+                return [prefix + "a", prefix + "b"]
+            raise KeyError(methodname)
+
+    class N(torch.nn.Module):
+        def __init__(self):
+            super().__init__()
+            self.a = torch.nn.Parameter(torch.tensor([1.0, 2.0], dtype=torch.float64))
+            self.b = torch.nn.Parameter(torch.tensor([0.5, 0.1], dtype=torch.float64))
+            self.c = torch.nn.Parameter(torch.tensor([0.0], dtype=torch.float64))
+
+        def f(self, y):
+            return y - self.a * self.b + self.c * 0
+
+        def forward(self, y):
+            return self.f(y)
+
+    class P(object):
+        def f(self, y):
+            return y
+
+        def __call__(self, y):
+            return y
+
+    def plain(y):
+        return y - 1.0
+    try:
+        with warnings.catch_warnings():
+            warnings.simplefilter("ignore")
+
+            @torch.jit.script
+            def scr(y):
+                return y - 1.0
+    except Exception:
+        scr = None
+    e, n_, p_ = E(), N(), P()
+    pf = get_pure_function(e.f)
+    sib = make_sibling(e.f)(lambda y: e.f(y) * 1.0)
+    objs = {"function": plain, "lambda": (lambda y: y - 1.0), "scripted": scr, "edit_method": e.f, "nn_method": n_.f, "plain_method": p_.f,
+            "edit_instance": e, "nn_instance": n_, "plain_instance": p_, "purefunction": pf, "sibling": sib, "noncallable": 3.0}
+    n = 0
+    for st in nodes.values():
+        kind, pred = st["kind"], st["pred"]
+        if kind == "scripted" and scr is None:
+            continue
+        n += 1
+        ctx.case(key=("fnkind", kind))
+        try:
+            got = get_pure_function(objs[kind])
+            cls = "same" if got is objs[kind] else type(got).__name__
+            nobj = len(got.objparams()) if cls != "same" else 0
+        except RuntimeError:
+            cls, nobj = "raise", 0
+        except Exception as ex:
+            cls, nobj = "raise-%s" % type(ex).__name__, 0
+        if cls != pred["cls"] or (cls not in ("same", "raise") and nobj != int(pred["nobj"])):
+            ctx.violation("fnkinds/%s" % kind, "get_pure_function(%s): got %s with %d object parameters, specification %s with %d" % (kind, cls, nobj, pred["cls"], int(pred["nobj"])), {"kind": kind})
+        elif pred["cls"] not in ("raise", "same") or kind in ("purefunction", "sibling"):
+            # the accepted kinds run through a functional and give the same root as the plain function (where they are the same mathematics)
+            try:
+                with warnings.catch_warnings():
+                    warnings.simplefilter("ignore")
+                    y = xitorch.optimize.rootfinder(objs[kind], torch.zeros(2, dtype=torch.float64), method="broyden1", f_tol=1e-12)
+                expect = torch.ones(2, dtype=torch.float64) if kind in ("function", "lambda", "scripted") else torch.tensor([0.5, 0.2], dtype=torch.float64)
+                if not torch.allclose(y, expect, atol=1e-9):
+                    ctx.violation("fnkinds/%s/value" % kind, "rootfinder on a %s gives %s, expected %s" % (kind, y.tolist(), expect.tolist()), {"kind": kind})
+            except Exception as ex:
+                ctx.violation("fnkinds/%s/raise" % kind, "rootfinder on a %s raised %s: %s" % (kind, type(ex).__name__, str(ex)[:100]), {"kind": kind})
+    return n
+
+
 def run(ctx):
     thorough = ctx.tier == "thorough"
     torch.manual_seed(ctx.seed)
@@ -67,6 +162,8 @@ def run(ctx):
     t, cf = tlcmod.gen_mc(ctx.work, "ParamSubst", "MC_PS9_dev", c, invariants=["EvalSeesRequested"])
     ctx.expect_violation(t, cf, inv="EvalSeesRequested", label="deviation JacOwnList", workers=8, timeout=300)
 
+    nk = fnkinds(ctx)
+    ctx.replayed = nk
     # 2. every functional on every representation, protocol validated by TLC, numeric verdicts in the final event
     traces = []
     tid = 0
